@@ -94,6 +94,9 @@ def correspondence(ctx):
         o = [0, 5, 2.5, 50][int(rng.integers(0, 4))]
         scale = [1e-3, 0.5][int(rng.integers(0, 2))]
         for cls, tag in ((OnlineVarianceMetricAdapter, "var"), (OnlineCovarianceMetricAdapter, "cov")):
+            if tag == "cov" and not o and 2 <= sum(sizes) <= d:
+                ctx.count("corr:cov:singular-estimate")      # rank-deficient by construction without regularisation (documented): no metric to compare
+                continue
             ad = cls(reg_iter_offset=o, reg_scale=scale)
             try:
                 tr, _ = run_metric_adapter(ad, chains)
@@ -375,10 +378,13 @@ def search(ctx):
                             est = np.linalg.inv(np.asarray(tr.system.metric.array))
                             est2 = np.linalg.inv(np.asarray(results[1][0].system.metric.array))
                             want_type = "DensePositiveDefiniteMatrix"
-                        tol = 1e-9 if off == 0 else (1e-7 if off == 1e3 else 2e-4)
+                        tol = 1e-9 if off == 0 else (2e-6 if off == 1e3 else 2e-3)      # rounding of the online updates grows with offset / spread (and is amplified by the inverse when unregularised)
                         info = dict(adapter=cls.__name__, partition=list(part), offset=off, reg_iter_offset=o, reg_scale=scale, seed_rep=rep)
                         ctx.case(("metric", cls.__name__, part, off, o, rep))
                         ctx.count(f"search:{cls.__name__}:chains={len(part)}")
+                        # the estimate is recovered by inverting the metric the adapter set (itself an inverse): allow for the conditioning of the estimate
+                        cond = float(np.linalg.cond(ref)) if np.ndim(ref) == 2 else float(np.max(ref) / np.min(ref))
+                        tol = max(tol, 1e-12 * cond)
                         e1 = np.abs(est - ref).max() / np.abs(ref).max()
                         e2 = np.abs(est2 - est).max() / np.abs(ref).max()
                         if not (e1 <= tol and e2 <= tol):
